@@ -5,8 +5,10 @@ V = os.path.dirname(os.path.dirname(os.path.abspath(__file__)))
 props = [json.loads(l) for l in open(os.path.join(V, "properties.jsonl"))]
 CLAIMS = json.load(open(os.path.join(V, "tools", "claims.json")))
 import glob
+INTEGRATED = set(open(os.path.join(V, "tools", "integrated.txt")).read().split())
 for f in sorted(glob.glob(os.path.join(V, "tools", "claims.d", "*.json"))):
-    CLAIMS[os.path.basename(f)[:-5]] = json.load(open(f))
+    if os.path.basename(f)[:-5] in INTEGRATED:  # checks still under construction are not claimed yet
+        CLAIMS[os.path.basename(f)[:-5]] = json.load(open(f))
 hooks_commits = []
 try:
     out = subprocess.run(["git", "-C", "/repo", "log", "--format=%H %s"], capture_output=True, text=True).stdout
